@@ -90,3 +90,16 @@ Example C07_D31_refuted :
   /\ ids_of (runC_with (fun i j => j - i) (match_flat_old 0 0) (ex_cfg None) ex_d31) = [[0; 2]; [1]].
 Proof. vm_compute. repeat split. Qed.
 Print Assumptions C07_D31_refuted.
+
+(* the inequality cannot be weakened to the property's wording "fragments shorter than the cache radius
+   (cache_size)": the margin used by can_be_yielded is cache_size/2, so a start-sorted library whose fragments
+   are all shorter than cache_size, one of them longer than cache_size/2, is partitioned differently by an
+   ejecting schedule (known finding; the implementation is replayed on this input by replay_known) *)
+Example C07_gap_refuted :
+  forallb (fun f => f_end f - f_start f <? 40) ex_gap = true
+  /\ lag_sortedb 0 ex_gap = true /\ blocksb ex_gap = true
+  /\ preb 31 0 (ex_cfg (Some 0)) ex_gap = false
+  /\ ids_of (runC (ex_cfg (Some 0)) ex_gap) = [[0]; [1]; [2]]
+  /\ ids_of (runC (ex_cfg None) ex_gap) = [[0; 2]; [1]].
+Proof. vm_compute. repeat split. Qed.
+Print Assumptions C07_gap_refuted.
